@@ -37,6 +37,12 @@ class Fn:
         out = []
         if node is None:
             return out
+        if isinstance(node, ast.Call):
+            # a lambda written directly as an argument of a call is run by the callee while the statement executes: the items of its
+            # body are counted at the call (a may-analysis: counting them is an over-approximation); any other lambda is unsupported
+            for a in list(node.args) + [k.value for k in node.keywords]:
+                if isinstance(a, ast.Lambda):
+                    a._argument_of_call = True
         for child in ast.iter_child_nodes(node):
             out += self.expr_items(child)
         if isinstance(node, ast.Call):
@@ -52,7 +58,7 @@ class Fn:
                 out.append('ECall %s' % coq_str(name))
         elif isinstance(node, ast.Subscript) and isinstance(node.value, ast.Name) and node.value.id == 'Operators':
             out.append('ERaise "KeyError" false')
-        elif isinstance(node, (ast.Lambda,)):
+        elif isinstance(node, (ast.Lambda,)) and not getattr(node, '_argument_of_call', False):
             raise Unsupported('%s: lambda at line %d' % (self.mod, node.lineno))
         return out
 
